@@ -3,6 +3,7 @@
 VERUS_UNITS = {
     # name: template, properties served, rlimit
     'sketch': dict(template='contracts/sketch.rs', props=['C14', 'C08', 'C13'], rlimit=30),
+    'unsync': dict(template='contracts/unsync.rs', props=['C01', 'C03', 'C04', 'C05', 'C06', 'C07', 'C08', 'C10', 'C11', 'C12', 'C13', 'C14', 'C15', 'C17'], rlimit=50),
 }
 
 # Kani harness groups: `file` is appended (as a child module) to `module` of a scratch copy of /repo.
